@@ -154,8 +154,17 @@ def main(argv=None):
     with ctx.Pool(max(1, min(a.jobs, len(jobs) + len(bjobs)) or 1)) as pool:
         ar = pool.map_async(_run_one, jobs, chunksize=1)
         br = pool.map_async(_run_bounded, bjobs, chunksize=1)
-        results = ar.get()
-        bresults = br.get()
+        # watchdog: a worker that never answers (a code change that makes the library hang, or a fork-time deadlock) must not hang
+        # the check: report a checker error (exit 3, never a violation) and terminate the pool
+        budget = int(os.environ.get('VERIF_WATCHDOG_S', '2400' if a.tier == 'quick' else '7200'))
+        try:
+            results = ar.get(timeout=budget)
+            bresults = br.get(timeout=budget)
+        except mp.TimeoutError:
+            pool.terminate()
+            print(f'CHECKER-ERROR watchdog: no answer from the workers after {budget} s')
+            print(f'{prop}: obligations=0 discharged=0 violations=0 exit=3')
+            return 3
     gresults = [r for r in bresults if any(g.id == r['id'] for g in ground)]
     bresults = [r for r in bresults if not any(g.id == r['id'] for g in ground)]
 
